@@ -526,7 +526,7 @@ func main() {
 		r.Set("fault_runs_transform_returned_error", atomic.LoadInt64(&nRolledBack))
 		r.Set("fault_runs_transform_returned_nil", atomic.LoadInt64(&nCompleted))
 
-		rounds := r.Pick(24, 400)
+		rounds := r.Pick(24, 160)
 		rng := r.Rand("rounds")
 		racePrefix := filepath.Join(base, "race")
 		hook := map[string]int64{}
